@@ -66,7 +66,13 @@ def run(p, script, seed=0, frame=True, permute=None):
             a = a / 2
         return feeder.batch(a.tolist())
 
+    from .core import Neighbour
+    F_ = p["F"]
+    nb_det = make(dict(p, sig=(0.3 if p["stat"] == "tstat" else 1.5)))
+    nb_det.set_reference(np.array([[float((7 * i + 3 * f) % 11) for f in range(F_)] for i in range(20)]))
+    nb = Neighbour(nb_det, lambda o, u: o.update(np.array([[float((int(u * 1000) + 5 * i + f) % 13) for f in range(F_)] for i in range(16)])), len(script))
     for t, s in enumerate(script):
+        nb.step()
         np.random.seed((seed * 7919 + t) % (2 ** 32))
         if s[0] == "set_reference":
             det.set_reference(wrap(s[1]))
